@@ -366,7 +366,7 @@ def run(ctx: Ctx):
         except Violation as e:
             ctx.add_violation(case, str(e))
             return
-    parts.append(given_part(ctx, "unordered", cases(), check_unordered, per_shard(ctx, 1100 if q else 36000), batch=50))
+    parts.append(given_part(ctx, "unordered", cases(), check_unordered, per_shard(ctx, 950 if q else 36000), batch=50))
     cli = cases().filter(lambda c: c["count_dtype"] == "int32").map(lambda c: dict(c, part="cli"))
     parts.append(given_part(ctx, "cli-load", cli, check_cli, per_shard(ctx, 160 if q else 4000), batch=20))
     if not q:
